@@ -226,6 +226,141 @@ def run(ctx):
                 ctx.violation(Finding('R-ROWALIAS', B, 'bpch1.__init__', st, 'a tracer-table row is stored by reference (%s): updating it for one block rewrites the scale/unit of the '
                                       'tracer that shares the row' % norm(val)[:40]))
     ctx.floor('tracer_data stores', n, 3)
+    # ---- R-KWFORWARD: the front end forwards every option both it and the chosen reader understand, each under its own name
+    ctx.rule('R-KWFORWARD', 'the combined reader forwards to each back end exactly the options both accept, each bound to the same-named argument')
+    MB = 'geoschemfiles/_bpchmaster.py'
+    mm_ = src.mod(MB)
+    fe = mm_.func('bpch.__init__')
+    fe_params = [a.arg for a in fe.args.args[2:]] + [a.arg for a in fe.args.kwonlyargs]
+
+    def dict_items(e, known):
+        """keys -> value text of a dict-building expression; None when not understood"""
+        if isinstance(e, ast.Dict) and all(isinstance(k, ast.Constant) for k in e.keys):
+            return dict((k.value, norm(v)) for k, v in zip(e.keys, e.values))
+        if isinstance(e, ast.Call) and dotted(e.func) in ('OrderedDict', 'dict', 'collections.OrderedDict'):
+            out = {}
+            if e.args:
+                a = e.args[0]
+                if isinstance(a, (ast.GeneratorExp, ast.ListComp)) and len(a.generators) == 1 and isinstance(a.generators[0].iter, (ast.Tuple, ast.List)) \
+                        and all(isinstance(x, ast.Constant) for x in a.generators[0].iter.elts) and not a.generators[0].ifs \
+                        and isinstance(a.elt, ast.Tuple) and len(a.elt.elts) == 2 and isinstance(a.generators[0].target, ast.Name):
+                    kv = a.generators[0].target.id
+                    ke, ve = a.elt.elts
+                    if not (isinstance(ke, ast.Name) and ke.id == kv):
+                        return None
+                    for x in a.generators[0].iter.elts:
+                        if isinstance(ve, ast.Subscript) and isinstance(ve.value, ast.Name) and ve.value.id in known and isinstance(ve.slice, ast.Name) and ve.slice.id == kv:
+                            if x.value not in known[ve.value.id]:
+                                return None
+                            out[x.value] = known[ve.value.id][x.value]
+                        else:
+                            return None
+                elif isinstance(a, ast.Name) and a.id in known:
+                    out.update(known[a.id])
+                else:
+                    return None
+            for k_ in e.keywords:
+                if k_.arg is None:
+                    return None
+                out[k_.arg] = norm(k_.value)
+            return out
+        return None
+    known = {}
+    for st in iter_stmts(fe.body):
+        if isinstance(st, ast.Assign) and len(st.targets) == 1 and isinstance(st.targets[0], ast.Name) and st.targets[0].id in ('bpch1kwds', 'bpch2kwds'):
+            known[st.targets[0].id] = dict_items(st.value, known)
+    for dn, (mod_, q_) in (('bpch1kwds', (bm, 'bpch1.__init__')), ('bpch2kwds', (nm, 'bpch2.__init__'))):
+        wfe = 'src/PseudoNetCDF/%s bpch.__init__' % MB
+        if dn not in known:
+            ctx.undec('R-KWFORWARD', dn, wfe, 'keyword table not found')
+            continue
+        if known[dn] is None:
+            ctx.undec('R-KWFORWARD', dn, wfe, 'keyword table built in a form that is not understood')
+            known[dn] = {}
+            continue
+        tgt = mod_.func(q_)
+        tparams = [a.arg for a in tgt.args.args[2:]] + [a.arg for a in tgt.args.kwonlyargs]
+        want = [p_ for p_ in tparams if p_ in fe_params]
+        st_ = [s2 for s2 in iter_stmts(fe.body) if isinstance(s2, ast.Assign) and norm(s2.targets[0]) == dn][0]
+        missing = [p_ for p_ in want if p_ not in known[dn]]
+        extra = [k_ for k_ in known[dn] if k_ not in tparams]
+        crossed = [k_ for k_, v_ in known[dn].items() if k_ in fe_params and v_ != k_]
+        if missing:
+            ctx.violation(Finding('R-KWFORWARD', MB, 'bpch.__init__', st_, 'option%s %s accepted by both bpch() and %s %s not forwarded: the back end silently runs with its default '
+                                  '(e.g. values scaled although noscale=True was asked for)' % ('s' if len(missing) > 1 else '', missing, q_, 'are' if len(missing) > 1 else 'is')), oid=dn + ':missing')
+        elif extra:
+            ctx.violation(Finding('R-KWFORWARD', MB, 'bpch.__init__', st_, '%s forwards %s, which %s does not accept: the fallback always raises TypeError' % (dn, extra, q_)), oid=dn + ':extra')
+        elif crossed:
+            ctx.violation(Finding('R-KWFORWARD', MB, 'bpch.__init__', st_, '%s binds %s to a differently named argument (%s)' % (dn, crossed, [known[dn][c] for c in crossed])), oid=dn + ':crossed')
+        else:
+            ctx.ok('R-KWFORWARD', dn, wfe, 'forwards %s = options shared with %s' % (sorted(known[dn]), q_))
+    # ---- R-PERBLOCK: every header field of a block is computed from that block's variable (no leftover binding from an earlier loop)
+    ctx.rule('R-PERBLOCK', 'writer: header fields of a block depend only on that block\'s variable, never on a value computed before the block loop from a leftover loop variable')
+    blockloop = None
+    for st in iter_stmts(wfn.body):
+        if isinstance(st, ast.For) and isinstance(st.target, ast.Name) and st.target.id == 'varkey' and any(
+                isinstance(s2, ast.Assign) and isinstance(s2.targets[0], ast.Subscript) and norm(s2.targets[0].value) == 'header' for s2 in iter_stmts(st.body)):
+            blockloop = st
+    if blockloop is None:
+        ctx.undec('R-PERBLOCK', 'block loop', 'src/PseudoNetCDF/%s ncf2bpch' % B, 'per-block loop not found')
+    else:
+        pervar = set(['varkey'])
+        for s2 in iter_stmts(blockloop.body):
+            if isinstance(s2, ast.Assign):
+                for t in s2.targets:
+                    if isinstance(t, ast.Name):
+                        pervar.add(t.id)
+        inloop = set(id(x) for x in ast.walk(blockloop))
+        outer_defs = {}
+        for s2 in iter_stmts(wfn.body):
+            if id(s2) in inloop:
+                continue
+            if isinstance(s2, ast.Assign):
+                for t in s2.targets:
+                    if isinstance(t, ast.Name):
+                        outer_defs.setdefault(t.id, []).append(s2)
+        nh = 0
+        for s2 in iter_stmts(blockloop.body):
+            if isinstance(s2, ast.Assign) and isinstance(s2.targets[0], ast.Subscript) and norm(s2.targets[0].value) in ('header', 'tdv', 'data'):
+                nh += 1
+                stale = None
+                for n_ in ast.walk(s2.value):
+                    if isinstance(n_, ast.Name) and n_.id not in pervar and n_.id in outer_defs:
+                        for d_ in outer_defs[n_.id]:
+                            # a definition outside the loop that reads a per-variable name is a leftover of an earlier loop (or a NameError)
+                            used = set(x.id for x in ast.walk(d_.value) if isinstance(x, ast.Name)) - set(
+                                g_.target.id for c_ in ast.walk(d_.value) if isinstance(c_, (ast.ListComp, ast.GeneratorExp)) for g_ in c_.generators if isinstance(g_.target, ast.Name))
+                            if used & (pervar - set(['varkey'])) or ('varkey' in used):
+                                stale = (n_.id, d_, sorted(used & pervar))
+                if stale:
+                    ctx.violation(Finding('R-PERBLOCK', B, 'ncf2bpch', stale[1], '%s is computed once before the block loop from %s, which at that point still holds the last variable of an '
+                                          'earlier loop; it is then written into the header of every block (%s)' % (stale[0], stale[2], norm(s2.targets[0]))))
+                else:
+                    ctx.ok('R-PERBLOCK', norm(s2.targets[0]), 'src/PseudoNetCDF/%s ncf2bpch' % B, 'depends on this block only')
+        ctx.floor('header/data stores of the block loop', nh, 8)
+    # ---- R-TAUPAIR: cached header attributes of the second reader come from the like-named header field
+    ctx.rule('R-TAUPAIR', 'second reader: an attribute named after a header field is read from that field')
+    hdrnames = set(['tau0', 'tau1', 'category', 'tracerid', 'unit', 'reserved', 'dim', 'skip', 'modelname', 'modelres', 'halfpolar', 'center180'])
+    npair = 0
+    for q_, f_ in nm.functions.items():
+        for s2 in iter_stmts(f_.body):
+            if not isinstance(s2, ast.Assign):
+                continue
+            pairs = []
+            for t in s2.targets:
+                if isinstance(t, ast.Tuple) and isinstance(s2.value, ast.Tuple) and len(t.elts) == len(s2.value.elts):
+                    pairs += list(zip(t.elts, s2.value.elts))
+                else:
+                    pairs.append((t, s2.value))
+            for t, v in pairs:
+                if isinstance(t, ast.Attribute) and t.attr.lstrip('_') in hdrnames and isinstance(v, ast.Subscript) and const_str(v.slice) in hdrnames:
+                    npair += 1
+                    if const_str(v.slice) == t.attr.lstrip('_'):
+                        ctx.ok('R-TAUPAIR', '%s:%s' % (q_, norm(t)), 'src/PseudoNetCDF/%s %s' % (NB, q_), "<- ['%s']" % const_str(v.slice))
+                    else:
+                        ctx.violation(Finding('R-TAUPAIR', NB, q_, s2, "%s is read from header field '%s': the block's %s is lost (time bounds / ids of the second reader differ from "
+                                              'the first reader\'s)' % (norm(t), const_str(v.slice), t.attr.lstrip('_'))))
+    ctx.floor('attribute <- header field pairs in the second reader', npair, 2)
     # ---- shared pads + API
     c09.check_bpch_pads(ctx)
     nf = 0
